@@ -338,6 +338,7 @@ theorem uploads_keep_prior_rows (db : Db) (mem : Mem) (op : Op) (fault : Option 
     | matDelete n => exact hu.elim
     | typeDelete tb t => exact hu.elim
     | isoDelete id => exact hu.elim
+    | isoPropTypeOp w => exact hu.elim
   rcases fault with _ | ⟨k, kind⟩
   · exact none_case
   · rcases atomic db mem op k kind with h | h
